@@ -224,6 +224,9 @@ impl Report {
     /// Record one evaluated case. Returns the violation if it is not a known finding.
     pub fn record(&self, stage: &str, out: Outcome, rendered: impl FnOnce() -> J) -> Option<Violation> {
         PROGRESS.fetch_add(1, Ordering::Relaxed);
+        if std::env::var("VERIF_TRACE_CASES").is_ok() {
+            eprintln!("[case done] stage={stage} t={:.1}s", self.start.elapsed().as_secs_f64());
+        }
         let mut inner = self.inner.lock().unwrap();
         let st = inner.stages.entry(stage.to_string()).or_default();
         st.evaluations += 1;
@@ -339,6 +342,9 @@ impl Report {
         if self.stopped() {
             return;
         }
+        // sub-runs (same stages under another process-wide configuration, e.g. all parallel cut-offs 0 with 4 engine
+        // threads) are much slower per case: a fixed fraction of the work
+        let cases = if std::env::var("VERIF_SUBRUN").is_ok() { (cases / 60).max(24) } else { cases };
         let chunk_size = (cases / 64).clamp(4, 256);
         let n_chunks = cases.div_ceil(chunk_size);
         let next = AtomicUsize::new(0);
@@ -436,6 +442,62 @@ impl Report {
                     self.inconclusive("proptest abort");
                 }
             }
+        }
+    }
+
+    /// Run this same check again in a sub-process with extra environment (e.g. EGGLOG_PARALLEL_*_CUTOFF=0, which is
+    /// read once per process) and a marker variable the property module reacts to. The sub-process writes no
+    /// evidence; its VIOLATION lines are forwarded and counted, its summary counters are added under `label`.
+    pub fn run_self_with_env(&self, label: &str, env: &[(String, String)]) {
+        if self.stopped() {
+            return;
+        }
+        let exe = match std::env::current_exe() {
+            Ok(e) => e,
+            Err(_) => return,
+        };
+        let mut cmd = std::process::Command::new(exe);
+        cmd.arg(&self.prop).arg("--tier").arg(self.tier.name()).arg("--seed").arg(self.seed.to_string());
+        // few harness workers: every engine in the sub-run owns a thread pool of its own
+        cmd.env("VERIF_NO_EVIDENCE", "1").env("VERIF_SUBRUN", label).env("VERIF_THREADS", "5");
+        for (k, v) in env {
+            cmd.env(k, v);
+        }
+        let out = match cmd.output() {
+            Ok(o) => o,
+            Err(e) => {
+                self.inconclusive(format!("cannot start sub-run {label}: {e}"));
+                return;
+            }
+        };
+        let text = String::from_utf8_lossy(&out.stdout).to_string();
+        let code = out.status.code().unwrap_or(2);
+        let mut inner = self.inner.lock().unwrap();
+        for l in text.lines() {
+            if l.starts_with("VIOLATION ") {
+                println!("{l}   [sub-run {label}]");
+                inner.violations.push((Violation::new(format!("sub-run:{label}"), l.to_string()), String::new()));
+            } else if l.starts_with("  signature:") || l.starts_with("  | ") {
+                println!("{l}");
+            } else if l.starts_with("KNOWN-FINDING") {
+                println!("{l}   [sub-run {label}]");
+            } else if l.contains("evaluations=") {
+                // "<ID> quick: evaluations=N distinct_nontrivial=M ..."
+                for tok in l.split_whitespace() {
+                    if let Some((k, v)) = tok.split_once('=') {
+                        if let Ok(n) = v.parse::<u64>() {
+                            if k == "evaluations" || k == "distinct_nontrivial" {
+                                *inner.counters.entry(format!("subrun:{label}:{k}")).or_insert(0) += n;
+                            }
+                        }
+                    }
+                }
+            }
+        }
+        if code == 1 {
+            self.stop.store(true, Ordering::Relaxed);
+        } else if code != 0 {
+            inner.inconclusive.push(format!("sub-run {label} exited with {code}"));
         }
     }
 
